@@ -318,10 +318,10 @@ let ch_c18 hex vec chain kind =
   let root_child = if n >= 2 then List.nth els (n - 2) else "-" in
   let is_tar = root_child = "application/x-tar|.tar" in
   let earlier = List.exists (fun i -> i < String.length vec && vec.[i] = '1') before_tar in
-  if kind = "writer" then begin
-    if not (tar_header_ok blk) then mismatch "tar-spec" (Printf.sprintf "archive/tar produced a first block that does not satisfy tar_header_ok: %s" (hex_of_bytes blk));
+  if kind = "writer" || kind = "layout" then begin
+    if not (tar_header_ok blk) then mismatch "tar-spec" (Printf.sprintf "%s a first block that does not satisfy tar_header_ok: %s" (if kind = "writer" then "archive/tar produced" else "re-encoding the checksum field in another conforming layout gave") (hex_of_bytes blk));
     if (not is_tar) && not earlier then
-      propfail "C18" (Printf.sprintf "archive written by archive/tar not reported as application/x-tar (result %s) gpkg-name=%b first-block=%s" chain (gpkg_name blk) (hex_of_bytes blk))
+      propfail "C18" (Printf.sprintf "archive written by archive/tar%s not reported as application/x-tar (result %s) gpkg-name=%b first-block=%s" (if kind = "layout" then " (checksum field re-encoded in another conforming layout)" else "") chain (gpkg_name blk) (hex_of_bytes blk))
   end else if kind = "corrupt" then begin
     if is_tar then propfail "C18" (Printf.sprintf "first header block with one corrupted byte outside the checksum field still reported as tar: first-block=%s" (hex_of_bytes blk))
   end
@@ -430,7 +430,7 @@ let model_history (hist : ostr) =
       match String.split_on_char '/' op with
       | [ph; mh; eh; ah; _pred] ->
         let parent = dec_hex_str ph in
-        if String.length parent > 0 && parent.[0] = '@' then
+        if String.length parent > 0 && (parent.[0] = '@' || parent.[0] = '^') then
           (* Extend on a detection result (a copy): nothing is registered, the tree stays as it is *)
           states := (!tree, Hashtbl.copy tbl, !ext_ids) :: !states
         else
